@@ -296,3 +296,20 @@ pub fn run_c18(ctx: &Ctx) -> i32 {
     });
     finish(ctx, &info, cov, &["two fixture folders (harness fixture with nested, dotted, multi-byte, prefix-sharing names, empty and binary files; the repository's test/test_directory)", "release build: rust-embed embeds the folder at compile time"], &vio)
 }
+
+/// Every operation on every path of both fixtures; only panics are returned (C13).
+pub fn panic_sweep() -> (u64, Vec<Violation>) {
+    let mut out = Out { evals: 0, vio: vec![], classes: BTreeMap::new() };
+    run_fixture("harness fixture", VfsPath::new(EmbeddedFS::<Fixture>::new()), VfsPath::new(PhysicalFS::new("/verif/mc/fixtures/embed")), 2, &mut out);
+    run_fixture("repo test_directory", VfsPath::new(EmbeddedFS::<RepoFixture>::new()), VfsPath::new(PhysicalFS::new("/repo/test/test_directory")), 2, &mut out);
+    let v = out
+        .vio
+        .into_iter()
+        .filter(|x| x.signature.contains("panic"))
+        .map(|mut x| {
+            x.property = "C13".into();
+            x
+        })
+        .collect();
+    (out.evals, v)
+}
